@@ -16,6 +16,8 @@ PoolText == <<
   "[[1] 2]", "(list [1] 2)", "(list (list 1) 2)", "[[1 2]]",
   "{:a 1}", "(hash-map :a 1)", "(assoc {} :a 1)", "(dissoc {:a 1 :b 2} :b)", "{:a 2}", "{:b 1}",
   "{:a nil}", "{:b nil}", "{:a 1 :b 2}", "(assoc {:b 2} :a 1)", "{\"a\" 1}", "{:a [1]}", "{:a (list 1)}",
+  \* map VALUES that are strings / keywords / symbols next to values of other kinds under the same key
+  "{:a \"\"}", "{:a false}", "{:a 0}", "{:a \"a\"}", "{:a :a}", "{:a 'a}", "{:a \"1\"}", "{:k {:a \"\"}}", "{:k {:a nil}}",
   "{:a {:b nil}}", "{:a {:c nil}}", "{:a {}}", "{:a nil :b nil}", "{:a nil :c nil}",
   "#{:a}", "#{\"a\"}", "(set [:a])", "(hash-set :a :b)", "#{:b :a}", "(conj #{:a} :b)", "#{:a :b :c}", "#{:a :c}",
   "(list nil)", "[nil]", "(list false)", "'(a)", "['a]", "[:a]", "[\"a\"]", "(list \"a\")", "[0]", "[\"\"]", "[()]", "[[]]",
